@@ -22,10 +22,13 @@ TECHNIQUE = ('fault injection with exhaustive enumeration of crash points '
 RULE = ('Family: project features {find_files, pkg_config(), install+test} x '
         'edit {add matching file, remove matching file, semantic build.bfg '
         'edit, script raises, script aborts with SystemExit(message / code), '
-        'rule emission raises (duplicate target)} x '
+        'rule emission raises (duplicate target), re-configuration of the '
+        'build directory with another --prefix (followed by forced '
+        'regenerations)} x '
         '{make, ninja}.  Per pair every mutation event (open-for-write, '
         'close, remove, utime, makedirs, rename) of the regeneration is hit '
-        'with every variant (before / trunc / partial / after / raise), '
+        'with every variant (before / trunc / partial / after / raise / a '
+        'write() failing half-way), '
         'followed by two un-faulted attempts through the backend.  '
         'Non-trivial: a crash point strictly between two persistent writes '
         'of different files; distinct = (backend, features, edit, event kind, '
@@ -50,7 +53,8 @@ FAULTBFG = os.path.join(sandbox.VERIF, 'tools', 'faultbin', 'bfg9000')
 FEATURE_SETS = [('find',), ('find', 'pkgconfig'), ('find', 'install'),
                 ('find', 'pkgconfig', 'install'), ('pkgconfig',)]
 EDITS = ['add_match', 'remove_match', 'semantic', 'script_raises',
-         'script_exits_msg', 'script_exits_code', 'rule_raises']
+         'script_exits_msg', 'script_exits_code', 'rule_raises',
+         'reconfigure']
 # edits after which the script cannot be executed to its end
 SCRIPT_FAILS = ('script_raises', 'script_exits_msg', 'script_exits_code')
 BACKENDS = ['make', 'ninja']
@@ -61,6 +65,8 @@ def all_pairs():
     for feats, edit, backend in itertools.product(FEATURE_SETS, EDITS,
                                                   BACKENDS):
         if edit in ('add_match', 'remove_match') and 'find' not in feats:
+            continue
+        if edit == 'reconfigure' and 'pkgconfig' not in feats:
             continue
         out.append({'features': list(feats), 'edit': edit,
                     'backend': backend})
@@ -124,7 +130,7 @@ def make_prestate(pair, tmp):
         p = os.path.join(src, 'src', 'b.c')
         os.unlink(p)
         os.utime(os.path.dirname(p), ns=(t, t))
-    else:
+    elif e != 'reconfigure':
         p = os.path.join(src, 'build.bfg')
         sandbox.write_file(p, script(pair['features'], e))
         os.utime(p, ns=(t, t))
@@ -168,8 +174,26 @@ def restore(saved, bld):
     os.utime(bld, ns=(st_.st_atime_ns, st_.st_mtime_ns))
 
 
-def attempt(backend, bld, env, fault=None, log=None):
+NEW_PREFIX = '/opt/c10-new'
+
+
+def attempt(backend, bld, env, fault=None, log=None, how='backend', src=None):
+    """how: 'backend' - the regeneration the build file itself runs;
+    'reconfigure' - configure the existing build directory again with another
+    --prefix; 'regenerate' - a forced `bfg9000 regenerate`."""
     e = dict(env)
+    if how != 'backend':
+        if fault:
+            e['VF_FAULT'] = fault
+        if log:
+            e['VF_FAULT_LOG'] = log
+        bfg = FAULTBFG
+        if how == 'reconfigure':
+            argv = [bfg, 'configure-into', src, bld, '--backend=' + backend,
+                    '--no-resolve-packages', '--prefix=' + NEW_PREFIX]
+        else:
+            argv = [bfg, 'regenerate', bld]
+        return sandbox.run(argv, os.path.dirname(bld), e)
     if fault:
         e['VF_FAULT'] = fault
     if log:
@@ -177,7 +201,7 @@ def attempt(backend, bld, env, fault=None, log=None):
     return sandbox.run_backend(backend, bld, e, [buildfile(backend)])
 
 
-VARIANTS = {'open-w': ['before', 'trunc', 'raise'],
+VARIANTS = {'open-w': ['before', 'trunc', 'raise', 'wfail'],
             'close': ['partial', 'after', 'raise']}
 DEFAULT_VARIANTS = ['before', 'after', 'raise']
 
@@ -203,7 +227,12 @@ def enumerate_pair(rec, pair, shard, nshards, only=None):
         before = declared_outputs(bld, backend)
         # reference: the uninterrupted run
         log = os.path.join(tmp, 'events')
-        r = attempt(backend, bld, env, fault='count', log=log)
+        # (a re-configuration is the faulted run itself; the attempts that
+        # follow it are forced regenerations)
+        first = 'reconfigure' if pair['edit'] == 'reconfigure' else 'backend'
+        later = 'regenerate' if pair['edit'] == 'reconfigure' else 'backend'
+        r = attempt(backend, bld, env, fault='count', log=log, how=first,
+                    src=src)
         ref_rc = r.rc
         ref = declared_outputs(bld, backend)
         events = []
@@ -228,7 +257,7 @@ def enumerate_pair(rec, pair, shard, nshards, only=None):
             raise HarnessError('uninterrupted regeneration failed: ' +
                                (r.err + r.out)[-800:])
         # second uninterrupted attempt must be stable
-        r2 = attempt(backend, bld, env)
+        r2 = attempt(backend, bld, env, how=later, src=src)
         if not expect_fail and (r2.rc != 0 or
                                 declared_outputs(bld, backend) != ref):
             raise Violation('fault/reference-unstable', 'a second '
@@ -260,7 +289,16 @@ def enumerate_pair(rec, pair, shard, nshards, only=None):
             case = dict(pair, event=i, variant=v, kind=kind,
                         path=os.path.relpath(path, tmp))
             restore(saved, bld)
-            f = attempt(backend, bld, env, fault='{}:{}'.format(i, v))
+            first_w = min([j for (j, k_, _) in events if k_ == 'open-w'] or
+                          [0])
+            if pair['edit'] == 'reconfigure' and (
+                    i < first_w or (i == first_w and v in ('before',
+                                                            'raise'))):
+                # nothing of the new configuration was written yet: the old
+                # one simply stays in force
+                continue
+            f = attempt(backend, bld, env, fault='{}:{}'.format(i, v),
+                        how=first, src=src)
             if f.rc == 0 and not expect_fail:
                 # the injected fault was swallowed: the result must still be
                 # complete
@@ -271,7 +309,7 @@ def enumerate_pair(rec, pair, shard, nshards, only=None):
                              'uninterrupted run'.format(v, i, kind,
                                                         role(path)), case)
             for k in (1, 2):
-                a = attempt(backend, bld, env)
+                a = attempt(backend, bld, env, how=later, src=src)
                 if a.rc != 0:
                     if not expect_fail and k == 2:
                         # failing visibly is allowed; failing forever is not
@@ -321,6 +359,9 @@ def tasks(tier):
         # find/add_match pairs (where the persisted cache matters) always in
         core = [p for p in pairs if p['edit'] in ('add_match', 'semantic') +
                 SCRIPT_FAILS and p['features'] == ['find', 'pkgconfig']]
+        core += [p for p in pairs if p['edit'] == 'reconfigure' and
+                 p['features'] == ['find', 'pkgconfig'] and
+                 p['backend'] == ('make' if seed % 2 else 'ninja')]
         rest = [p for p in pairs if p not in core]
         k = (seed * 7) % len(rest)
         chosen = core + [rest[k]]
